@@ -242,3 +242,56 @@ def clamp(facts: CppFacts):
         raise AnalysisError("no pointer-based GetOffsetStorage found")
     res.analysed = [MEM]
     return res
+
+
+def arrayelem(facts: CppFacts):
+    """R-ARRAYELEM (C01/C04): element i of an array view is the kElementSize units starting at kElementSize * i.
+    In both element constructors the storage is `GetOffsetStorage<kElementSize, 0>(<offset>, <size>)` with offset the
+    product of exactly kElementSize and the index and size kElementSize; the checked one hands out a null storage when
+    `index >= size`; `at()` passes ElementCount() as that size; ElementCount() is the buffer size divided by
+    kElementSize and Ok() requires the remainder to be zero."""
+    res = RuleResult("R-ARRAYELEM")
+    ARR = "runtime/cpp/emboss_array_view.h"
+    ctors = [m for m in facts.methods if m.cls.endswith("IndexOperatorHelper") and "GetOffsetStorage" in m.body]
+    if len(ctors) < 2:
+        raise AnalysisError("array view: element constructors not found")
+    for m in ctors:
+        body = " ".join(tokens(m.body))
+        res.instances += 1
+        mm = re.search(r"GetOffsetStorage < (\w+) , (\w+) > \( (.*?) , (\w+) \) \)", body)
+        if not mm:
+            res.add(f"{m.file}|{m.name}|shape", f"{m.name}: element storage is not GetOffsetStorage<kElementSize, 0>(offset, size)", m.file, m.line, m.name)
+            continue
+        align, aoff, offset, size = mm.groups()
+        pnames = [p[1] for p in m.params]
+        index = next((p for p in pnames if p == "index"), None)
+        factors = sorted(offset.split(" * ")) if " * " in offset and "+" not in offset and "-" not in offset else None
+        if factors != sorted(["kElementSize", index or "index"]):
+            res.add(f"{m.file}|{m.name}|offset", f"{m.name}: element {index} is placed at `{offset}`; it starts kElementSize * {index} units "
+                    "into the array", m.file, m.line, m.name)
+        if size != "kElementSize":
+            res.add(f"{m.file}|{m.name}|size", f"{m.name}: element storage has size `{size}`, not kElementSize", m.file, m.line, m.name)
+        if align != "kElementSize" or aoff != "0":
+            res.add(f"{m.file}|{m.name}|alignment", f"{m.name}: element alignment claim <{align}, {aoff}> is not <kElementSize, 0>", m.file, m.line, m.name)
+        if m.name == "ConstructElement":
+            res.instances += 1
+            lim = next((p for p in pnames if p == "size"), "size")
+            if not re.search(rf"\b{index} >= {lim}\b|\b{lim} <= {index}\b", body) or "nullptr" not in body:
+                res.add(f"{m.file}|{m.name}|bounds", f"{m.name}: no null storage for `{index} >= {lim}`: at() past the end yields a view "
+                        "of memory behind the array", m.file, m.line, m.name)
+    by = {m.name: m for m in facts.methods if m.cls == "GenericArrayView"}
+    for need in ("at", "ElementCount", "Ok"):
+        if need not in by:
+            raise AnalysisError(f"GenericArrayView::{need} vanished")
+    res.instances += 3
+    if "ElementCount ( )" not in " ".join(tokens(by["at"].body)):
+        res.add(f"{ARR}|at|limit", "at() does not pass ElementCount() as the limit", ARR, by["at"].line, "at")
+    ec = " ".join(tokens(by["ElementCount"].body))
+    if not re.search(r"return SizeOfBuffer \( \) / kElementSize ;", ec):
+        res.add(f"{ARR}|ElementCount|quotient", f"ElementCount() is `{ec}`, not SizeOfBuffer() / kElementSize", ARR, by["ElementCount"].line, "ElementCount")
+    okb = " ".join(tokens(by["Ok"].body))
+    if not re.search(r"SizeOfBuffer \( \) % kElementSize != 0 \) return false", okb):
+        res.add(f"{ARR}|Ok|remainder", "Ok() no longer rejects a buffer whose size is not a multiple of the element size", ARR, by["Ok"].line, "Ok")
+    res.samples = ["element i at kElementSize * i, size kElementSize, null storage past the end"]
+    res.analysed = [ARR]
+    return res
